@@ -213,12 +213,38 @@ def _rmdir_guard(e, trace):
     return wrap_bool(tm.And(B(isdir[-1].result), tm.Not(B(listing[-1].nonempty))))
 
 
+def _prune_iteration(e):
+    """C07 (nothing empty is left behind): one directory is taken from the stack; exactly when it was removed and its
+    parent has a name (is not the root, `.` or `..`), the parent is put on the stack -- every time, also when it was
+    looked at before, because it may have become empty only now."""
+    c = cur()
+    before, after = e.iter_pre.todo, e.todo
+    if not (isinstance(before, sym.SymSeq) and isinstance(after, sym.SymSeq)):
+        return False
+    popped = before.elem(tm.Sub(before.length, tm.mk_int(1)))
+    rm = [ev for ev in e.iter_trace if ev.kind == "Path.rmdir"]
+    if len(rm) > 1:
+        return False
+    removed = tm.mk_bool(False)
+    if rm:
+        known = c.known.get(rm[0].fails.s)
+        removed = tm.And(tm.mk_bool(known is False), tm.Eq(S(rm[0].path), S(popped)))
+    parent = trusted._path_fun("posix.dirname", S(popped))
+    pname = trusted._path_fun("posix.basename", parent)
+    named = tm.And(*[tm.Ne(pname, tm.mk_str(x)) for x in ("..", ".", "")])
+    pushed = tm.And(removed, named)
+    n0 = before.length
+    return wrap_bool(tm.And(
+        tm.Implies(pushed, tm.And(tm.Eq(after.length, n0), tm.Eq(S(after.elem(tm.Sub(n0, tm.mk_int(1)))), parent))),
+        tm.Implies(tm.Not(pushed), tm.Eq(after.length, tm.Sub(n0, tm.mk_int(1))))))
+
+
 @contract("stepup/core/finalize.py::_prune_empty_dirs", props=["C06", "C07"])
 class prune_empty_dirs:
     args = dict(dirs=ty.SetOf(PathStr), reporter=ty.Make(Reporter))
     events = {"Path.rmdir": _rmdir_guard, "Path.remove": lambda e: False}
     modifies = []
-    loops = {0: LoopSpec(locals=dict(todo=ty.SeqOf(PathStr)))}
+    loops = {0: LoopSpec(locals=dict(todo=ty.SeqOf(PathStr)), step_post=_prune_iteration)}
 
 
 # ---------------------------------------------------------------- revert_optional_steps
